@@ -645,6 +645,7 @@ pub fn run(ctx: &Ctx) -> i32 {
     }
     known_finding_probes(ctx, &root_base);
     own_directory_probes(ctx, &root_base);
+    reentered_file_probes(ctx, &root_base);
     let _ = std::fs::remove_dir_all(&root_base);
     fw::finish(
         ctx,
@@ -701,6 +702,52 @@ fn own_directory_probes(ctx: &Ctx, scratch: &Path) {
     }
 }
 
+/// A file included again while its first inclusion is still being read - by itself or through another file -,
+/// the chain ended by conditions on symbols the inclusions set: the assembler's way of repeating a block. Pasted in
+/// place, the lines assemble; so does the tree.
+fn reentered_file_probes(ctx: &Ctx, scratch: &Path) {
+    let row = ".ifndef ROW_1\n#define ROW_1\n\t.dw 1\n.if ROWS > 1\n.include \"row.inc\"\n.endif\n.else\n.ifndef ROW_2\n#define ROW_2\n\t.dw 2\n.if ROWS > 2\n.include \"row.inc\"\n.endif\n.else\n\t.dw 3\n.endif\n.endif\n";
+    let cases: Vec<(&str, Vec<(&str, String)>, &str)> = vec![
+        ("itself-three-times", vec![("main.asm", ".equ ROWS = 3\n.include \"row.inc\"\n\tnop\n".to_string()), ("row.inc", row.to_string())], "\t.dw 1\n\t.dw 2\n\t.dw 3\n\tnop\n"),
+        ("itself-twice", vec![("main.asm", ".equ ROWS = 2\n.include \"row.inc\"\n\tnop\n".to_string()), ("row.inc", row.to_string())], "\t.dw 1\n\t.dw 2\n\tnop\n"),
+        ("itself-once-then-again-from-the-main-file", vec![("main.asm", ".equ ROWS = 1\n.include \"row.inc\"\n.include \"row.inc\"\n\tnop\n".to_string()), ("row.inc", row.to_string())], "\t.dw 1\n\t.dw 2\n\tnop\n"),
+        (
+            "through-another-file",
+            vec![
+                ("main.asm", "\tnop\n.include \"ping.inc\"\n\tret\n".to_string()),
+                ("ping.inc", ".ifndef PING_ONCE\n#define PING_ONCE\n\t.dw 0x11\n.include \"sub/pong.inc\"\n\t.dw 0x13\n.else\n\t.dw 0x12\n.endif\n".to_string()),
+                ("sub/pong.inc", "\t.dw 0x21\n.include \"ping.inc\"\n\t.dw 0x22\n".to_string()),
+            ],
+            "\tnop\n\t.dw 0x11\n\t.dw 0x21\n\t.dw 0x12\n\t.dw 0x22\n\t.dw 0x13\n\tret\n",
+        ),
+    ];
+    for (k, (name, files, pasted)) in cases.into_iter().enumerate() {
+        let root = scratch.join(format!("reentered{}", k));
+        let mut written = true;
+        for (f, text) in &files {
+            let p = root.join(f);
+            written &= std::fs::create_dir_all(p.parent().unwrap()).is_ok() && std::fs::write(&p, text).is_ok();
+        }
+        if !written {
+            ctx.inconclusive("cannot write scratch tree");
+            continue;
+        }
+        let out = fw::build_file(&root.join("main.asm"), &[]);
+        let want = fw::build_str(pasted);
+        ctx.eval(1);
+        ctx.count("reentered_file_probes", 1);
+        ctx.distinct(fw::hash_str(&format!("reentered|{}", name)));
+        if !matches!((&out, &want), (Outcome::Ok(a), Outcome::Ok(b)) if a.code == b.code) {
+            ctx.violation(
+                format!("include/file-included-again-while-open/{}", name),
+                format!("a file that is included again while its first inclusion is still open ({}): {} instead of the lines pasted in place", name, fw::clip(&format!("{:?}", out.brief()), 140)),
+                json!({"reentered_file_probe": true, "name": name, "observed": out.brief()}),
+            );
+        }
+        let _ = std::fs::remove_dir_all(&root);
+    }
+}
+
 /// Known findings (KNOWN_FINDINGS.txt): witness trees under /verif/findings/C11-*/ are copied to a
 /// scratch directory and built; `pasted.asm` there is the same program in one file.
 fn known_finding_probes(ctx: &Ctx, scratch: &Path) {
@@ -739,6 +786,14 @@ fn known_finding_probes(ctx: &Ctx, scratch: &Path) {
 }
 
 pub fn replay(ctx: &Ctx, case: &Value) -> i32 {
+    if case["reentered_file_probe"].as_bool() == Some(true) {
+        let root = fw::verif_root().join("build").join(format!("scratch-c11-replay-{}", std::process::id()));
+        reentered_file_probes(ctx, &root);
+        let _ = std::fs::remove_dir_all(&root);
+        ctx.distinct(1);
+        ctx.distinct(2);
+        return fw::finish(ctx, "replay", &[]);
+    }
     if case["own_directory_probe"].as_bool() == Some(true) {
         let root = fw::verif_root().join("build").join(format!("scratch-c11-replay-{}", std::process::id()));
         own_directory_probes(ctx, &root);
